@@ -458,6 +458,7 @@ SCAN = [2.0 + 0.5 * i for i in range(77)]
 FINDING_KEY = "nan-root-below-4ms-roughness-raises"
 FINDING_KEY2 = "nan-roughness-raises-at-overshoot-iterate"
 FINDING_KEY3 = "zero-step-at-bracket-end-ends-the-run"
+FINDING_KEY4 = "step-converged-between-0.05-and-0.1-from-the-root"
 CORPUS3 = {"nf": 48, "fmax": 1.0, "nd": 36,
            "dedt": {"c1": -4.592072868225679e-05, "c2": 9.099101734066148e-05, "c3": 5.541814251309006e-07},
            "sea": {"fp": 0.0848, "hs": 6.0, "dir": 180.0, "width": 30.0, "depth": 15.0, "gamma": 3.3, "stream": "main",
@@ -536,6 +537,11 @@ def real_cases(ctx):
                         dedt={"c1": 2.4781700125189064e-05, "c2": 8.274664577732858e-05, "c3": -1.118623712781574e-06},
                         seas=[{"fp": 0.0848, "hs": 4.06325507658607, "dir": 359.0, "width": 20.0, "depth": INF,
                                "gamma": 3.3, "stream": "marginal", "ratio": 0.8396272926992383}]))
+    # fifth corpus batch: the fourth recorded finding (converged on the 0.01 m/s step, 0.056 m/s from the root)
+    batches.append(dict(pair=["st4", "st6"], nf=64, fmax=2.0, nd=24, diriter=False, corpus=True,
+                        dedt={"c1": 3.9436758825426736e-05, "c2": 5.833156563762305e-05, "c3": -1.8051622395607384e-06},
+                        seas=[{"fp": 0.21200000000000002, "hs": 1.161981220240082, "dir": 58.22719104167824, "width": 40.0,
+                               "depth": INF, "gamma": 3.3, "stream": "main", "ratio": 1.5006920678870765}]))
     for b in range(nb):
         n = (b % 8) + 1 if b < 8 else rng.randint(1, 8)
         seas = []
@@ -568,6 +574,7 @@ def real_finish(ctx, batches, impl):
     lines, lmeta = [], []
     overshoot = []      # candidates of the second recorded finding; reported un-keyed when they are not rare
     zero_step = []      # candidates of the third recorded finding
+    marginal = []       # candidates of the fourth recorded finding: converged on the step, 0.05..0.1 m/s from the root
     nonzero = [0]
     for bi, (bt, im) in enumerate(zip(batches, impl)):
         if "error" in im:
@@ -730,6 +737,9 @@ def real_finish(ctx, batches, impl):
                                       "itself the end of the bracket" % (u, F0, tol), rep))
                 elif offq:
                     ctx.tally("real:edge-stream-residual-above-tolerance(not reported)")
+                elif abs(F0) <= 2.0 * tol:
+                    marginal.append(("balance function at the returned U10 is %r, more than its change %r over 0.05 m/s (but less "
+                                     "than its change over 0.1 m/s), and it does not change sign within 0.05 m/s" % (F0, tol), rep))
                 else:
                     ctx.oracle_fail("balance function at the returned U10 is %r, more than its change %r over 0.05 m/s, and it does "
                                     "not change sign within 0.05 m/s" % (F0, tol), rep)
@@ -779,6 +789,10 @@ def real_finish(ctx, batches, impl):
     rare = len(overshoot) <= max(2, 0.03 * nonzero[0])
     for desc, rep in overshoot:
         ctx.oracle_fail(desc, rep, key=(FINDING_KEY2 if rare else None))
+    ctx.tally("real:step-converged-0.05-to-0.1-from-root", len(marginal))
+    rare = len(marginal) <= max(2, 0.003 * nonzero[0])
+    for desc, rep in marginal:
+        ctx.oracle_fail(desc, rep, key=(FINDING_KEY4 if rare else None))
     ctx.tally("real:zero-step-false-convergence", len(zero_step))
     rare = len(zero_step) <= max(2, 0.03 * nonzero[0])
     for desc, rep in zero_step:
